@@ -72,7 +72,7 @@ def _corpus(only_props=None):
             patch = os.path.join(pd, "patch.diff")
         meta = json.load(open(os.path.join(pd, "meta.json")))
         exp = meta.get("expected_detection")
-        items.append({"name": "seeded/" + d, "patch": patch, "prop": meta["breaks_property"], "rule": None, "kind": "seeded", "expected": exp})
+        items.append({"name": "seeded/" + d, "patch": patch, "prop": meta["breaks_property"], "rule": None, "kind": "seeded", "expected": exp, "tier": meta.get("tier", "quick")})
     bd = os.path.join(md, "benign")
     for f in sorted(os.listdir(bd)) if os.path.isdir(bd) else []:
         if f.endswith(".patch"):
